@@ -85,7 +85,7 @@ def field_menu(spec, field, level):
     if field == "c":
         if level == "core":
             return ["a", None, "b", True]  # (a bool is a legal category, distinct from the string "True")
-        return ["a", "b", "", None, NAN, True, "NaN"]
+        return ["a", "b", "entries", "", None, NAN, True, "NaN"]  # ("entries": a category named like a field of the format)
     if field == "s":
         if level == "core":
             return [True, False, 0.5]
